@@ -80,7 +80,7 @@ def metaField (k : Str) (h : Hdr) : Bool :=
   if k == kwHelp then h.doc.isSome else if k == kwType then h.typ.isSome else if k == kwUnit then h.unit.isSome else false
 
 theorem applyMeta_name (h h' : Hdr) (kind c rest : Str) (hm : applyMeta h kind c rest = .ok h') : h'.name = h.name := by
-  unfold applyMeta at hm
+  rw [applyMeta_eq] at hm
   by_cases c1 : (kind == kwHelp) = true
   · rw [if_pos c1] at hm
     by_cases c2 : h.doc.isSome = true
@@ -106,7 +106,7 @@ theorem applyMeta_name (h h' : Hdr) (kind c rest : Str) (hm : applyMeta h kind c
 /-- a metadata line never unsets or overwrites a field: each of doc / typ / unit that is set stays as it is -/
 theorem applyMeta_keeps_set (h h' : Hdr) (kind c rest : Str) (hm : applyMeta h kind c rest = .ok h') :
     (h.doc.isSome = true → h'.doc = h.doc) ∧ (h.typ.isSome = true → h'.typ = h.typ) ∧ (h.unit.isSome = true → h'.unit = h.unit) := by
-  unfold applyMeta at hm
+  rw [applyMeta_eq] at hm
   by_cases c1 : (kind == kwHelp) = true
   · rw [if_pos c1] at hm
     by_cases c2 : h.doc.isSome = true
@@ -135,7 +135,7 @@ theorem applyMeta_keeps_set (h h' : Hdr) (kind c rest : Str) (hm : applyMeta h k
 /-- a successful metadata line of kind `k` leaves the field of `k` set; one that finds it set fails -/
 theorem applyMeta_sets (h h' : Hdr) (k c rest : Str) (hm : applyMeta h k c rest = .ok h') :
     metaField k h = false ∧ metaField k h' = true := by
-  unfold applyMeta at hm
+  rw [applyMeta_eq] at hm
   unfold metaField
   by_cases c1 : (k == kwHelp) = true
   · rw [if_pos c1] at hm
@@ -183,7 +183,7 @@ theorem applyMeta_field_mono (h h' : Hdr) (k kind c rest : Str) (hm : applyMeta 
       · rw [if_neg c6] at hk; cases hk
 
 theorem applyMeta_unit (h h' : Hdr) (c u : Str) (hm : applyMeta h kwUnit c u = .ok h') : h'.unit = some u := by
-  unfold applyMeta at hm
+  rw [applyMeta_eq] at hm
   have c1 : ¬ (kwUnit == kwHelp) = true := by decide
   have c2 : ¬ (kwUnit == kwType) = true := by decide
   rw [if_neg c1, if_neg c2, if_pos (beq_self_eq_true _)] at hm
@@ -192,7 +192,7 @@ theorem applyMeta_unit (h h' : Hdr) (c u : Str) (hm : applyMeta h kwUnit c u = .
   · rw [if_neg c7] at hm; obtain rfl := Except.ok.inj hm; rfl
 
 theorem applyMeta_typ (h h' : Hdr) (c t : Str) (hm : applyMeta h kwType c t = .ok h') : h'.typ = some t := by
-  unfold applyMeta at hm
+  rw [applyMeta_eq] at hm
   have c1 : ¬ (kwType == kwHelp) = true := by decide
   rw [if_neg c1, if_pos (beq_self_eq_true _)] at hm
   by_cases c4 : h.typ.isSome = true
